@@ -35,7 +35,11 @@ def frames(I, n, symvals, tricky=False):
     for i in range(n):
         if tricky:
             # field values that look like framing: frame-start marker, BodyLength / CheckSum look-alikes
-            v = TRICKY[I.choice(f"tricky{i}", len(TRICKY))] if I is not None else max(TRICKY, key=len)
+            lst = TRICKY if tricky is True else TRICKY[:tricky]  # an int: only the first frame, only that many look-alikes
+            if tricky is not True and i > 0:
+                v = "v%d" % i
+            else:
+                v = lst[I.choice(f"tricky{i}", len(lst))] if I is not None else max(lst, key=len)
         else:
             v = I.str(f"val{i}", 1, symvals, 0x21, 0x7E) if (symvals and I is not None) else "v%d" % i
         out.append(codec.encode(specs[i % len(specs)](v), peer).encode("latin-1"))
@@ -183,8 +187,11 @@ def cells(tier):
     add("bytewise/2frames/framing-lookalike-values", lambda I: h_bytewise(I, 2, 0, False, True),
         dict(frames=2, reads="1 byte each", values="framing look-alikes (solver-chosen)"))
     if not quick:
-        add("2cut/2frames/framing-lookalike-values", lambda I: h_cuts(I, 2, 2, 0, 10**6, 0, False, True),
-            dict(frames=2, cuts=2, offsets="every pair", values="framing look-alikes (solver-chosen)"), 3000.0)
+        LT2 = len(b"".join(frames(None, 2, 0, 2)))
+        for lo in range(0, LT2 + 1, 16):
+            add(f"2cut/2frames/framing-lookalike-values/{lo}", (lambda I, lo=lo: h_cuts(I, 2, 2, lo, lo + 15, 0, False, 2)),
+                dict(frames=2, cuts=2, offsets=f"first cut in [{lo},{lo + 15}], second anywhere after",
+                     values="first frame: '8=FIX.4.4' or 'a 8=FIX.4.4 9=12 b' (solver-chosen)"), 3000.0)
     add("bytewise/3frames", lambda I: h_bytewise(I, 3, 0 if quick else 1, False),
         dict(frames=3, reads="1 byte each", values="concrete" if quick else "1 symbolic char per frame"))
     add("bytewise/3frames/session", lambda I: h_bytewise(I, 3, 0, True), dict(frames=3, reads="1 byte each", processing="real"))
